@@ -150,6 +150,78 @@ class Stage(_NoReplay):
         yield "returns_the_traced_jaxpr_and_the_out_tree_thunk", closed == "closed-jaxpr" and callable(out_tree) and out_tree() == "out-tree"
 
 
+@contract("genjax.pjax:stage", ["C06", "C15", "C11"])
+class StageContextHistory(Contract):
+    """HISTORY of staging calls on ONE function object, through the real memoisation (JAX's lu.cache, executed, not
+    modelled; only the tracing step pe.trace_to_jaxpr_dynamic is replaced by a recorder that notes the ambient
+    configuration it runs under): the program handed back by every call is one traced under THAT call's ambient
+    trace context (64-bit mode here), static params, calling convention and abstract values - whatever was staged
+    before.  (A seeded function obtains the program it interprets from stage: were a program traced under another
+    context handed back, seed(f)(key, x) would depend on the history of other seeded calls.)"""
+
+    cases = ["default_then_x64_then_default", "x64_then_default"]
+
+    def replay(self, case, clause, model, path):
+        from .native import run_native
+
+        return run_native("seed_context")
+
+    def call(self, case):
+        import jax
+        import jax.numpy as jnp
+
+        try:
+            x64 = jax.enable_x64
+        except AttributeError:  # pragma: no cover
+            from jax.experimental import enable_x64 as x64
+        calls = self.calls = []
+
+        class Tok:
+            def __init__(s, ctx, avals):
+                s.ctx, s.avals = ctx, avals
+
+        def trace(flat_fun, avals):
+            t = Tok(bool(jax.config.jax_enable_x64), avals)
+            calls.append(t)
+            # run the flat function once, as tracing does (this is what fills the output-tree store)
+            flat_fun.call_wrapped(*[jnp.zeros(a.shape, a.dtype) for a in avals])
+            return t, None, []
+
+        def f(d, b=None, p=None):
+            return {"r": d["x"] + b.sum()}
+
+        a, b, b4 = jnp.float32(1.0), jnp.ones(3, jnp.float32), jnp.ones(4, jnp.float32)
+        stage = self.fn
+        out = {}
+        with patched(pjax, pe=StubNS(trace_to_jaxpr_dynamic=trace), ClosedJaxpr=lambda j, c: ("closed", j), get_shaped_aval=jax.typeof):
+            order = [False, True, False] if case.startswith("default") else [True, False, True]
+            for n, mode in enumerate(order):
+                with x64(mode):
+                    out["ctx%d" % n] = (mode, self.real(stage(f, p=1), {"x": a}, b))
+            out["p2"] = self.real(stage(f, p=2), {"x": a}, b)
+            out["kw"] = self.real(stage(f, p=1), {"x": a}, b=b)
+            out["b4"] = self.real(stage(f, p=1), {"x": a}, b4)
+            out["again"] = self.real(stage(f, p=1), {"x": a}, b)
+        return out
+
+    def ensures(self, case, path):
+        yield "does_not_raise", path.outcome == "return"
+        if path.outcome != "return":
+            return
+        o = path.value
+        tok = lambda r: r[0][1]
+        for n in range(3):
+            mode, r = o["ctx%d" % n]
+            yield "call_%d:program_was_traced_under_the_ambient_context_of_this_call" % n, tok(r).ctx is mode
+            yield "call_%d:out_tree_is_the_functions_output_tree" % n, r[1][2]() == real_jtu.tree_structure({"r": 0})
+        first = tok(o["ctx0"][1])
+        yield "other_static_params_are_traced_separately", tok(o["p2"]) is not first and tok(o["p2"]) is not tok(o["ctx1"][1])
+        yield "keyword_calling_convention_is_traced_separately_with_its_own_tree", tok(o["kw"]) is not first and o["kw"][1][1] == real_jtu.tree_structure((({"x": 0},), {"b": 0}))
+        yield "other_abstract_values_are_traced_separately", tok(o["b4"]) is not first and tuple(tok(o["b4"]).avals[1].shape) == (4,)
+        yield "a_later_identical_call_gets_a_program_of_its_own_context", tok(o["again"]).ctx is False
+        yield "tracing_happened(non-vacuous)", len(self.calls) >= 5
+
+
 # ------------------------------------------------------------------------------------------------
 # PPPrimitive helpers
 
